@@ -19,7 +19,12 @@ import (
 // ---------------------------------------------------------------------------
 // configurations
 
-var cfgNames = []string{"default", "customctx", "immutable"}
+// The first mainCfgs configurations are used by the whole history x probe product; "proxy"
+// (TrustProxy with loopback peers trusted, ProxyHeader X-Forwarded-For, IP validation) only by
+// the derived-value family (derived.go), where the peer address and the forwarding headers are inputs.
+var cfgNames = []string{"default", "customctx", "immutable", "proxy"}
+
+const mainCfgs = 3
 
 // customCtx is the documented way to build a custom context (embed DefaultCtx, override a method).
 type customCtx struct {
@@ -253,6 +258,54 @@ func (st *runState) observe(c fiber.Ctx, where string, herr error) {
 	o["req.query(name)"] = fmt.Sprintf("%q", c.Query("name"))
 	o["req.cookie(flash)"] = fmt.Sprintf("%q", c.Cookies(fiber.FlashCookieName))
 	o["req.body"] = fmt.Sprintf("%q", c.Body())
+	// every value the context DERIVES from several request inputs (see derived.go): a cache or a
+	// partial validation of any of them shows here
+	o["req.scheme"] = fmt.Sprintf("%q", c.Scheme())
+	o["req.secure"] = fmt.Sprint(c.Secure())
+	o["req.protocol"] = fmt.Sprintf("%q", c.Protocol())
+	o["req.hostname"] = fmt.Sprintf("%q", c.Hostname())
+	o["req.port"] = fmt.Sprintf("%q", c.Port())
+	o["req.subdomains"] = fmt.Sprintf("%q", c.Subdomains())
+	o["req.subdomains(1)"] = fmt.Sprintf("%q", c.Subdomains(1))
+	o["req.ips"] = fmt.Sprintf("%q", c.IPs())
+	o["req.proxytrusted"] = fmt.Sprint(c.IsProxyTrusted())
+	o["req.fromlocal"] = fmt.Sprint(c.IsFromLocal())
+	o["req.xhr"] = fmt.Sprint(c.XHR())
+	o["req.is"] = fmt.Sprintf("json=%v html=%v form=%v txt=%v", c.Is("json"), c.Is("html"), c.Is("form"), c.Is("txt"))
+	o["req.get(content-type)"] = fmt.Sprintf("%q", c.Get(fiber.HeaderContentType))
+	o["req.accepts"] = fmt.Sprintf("%q", c.Accepts("application/json", "html", "text/plain"))
+	o["req.acceptscharsets"] = fmt.Sprintf("%q", c.AcceptsCharsets("iso-8859-1", "utf-8"))
+	o["req.acceptsencodings"] = fmt.Sprintf("%q", c.AcceptsEncodings("br", "gzip"))
+	o["req.acceptslanguages"] = fmt.Sprintf("%q", c.AcceptsLanguages("en", "fr"))
+	{
+		rg, err := c.Range(16)
+		o["req.range(16)"] = fmt.Sprintf("%+v err=%s", rg, errStr(err))
+	}
+	o["req.fresh"] = fmt.Sprintf("fresh=%v stale=%v", c.Fresh(), c.Stale())
+	{
+		qs := c.Queries()
+		keys := make([]string, 0, len(qs))
+		for k, v := range qs {
+			keys = append(keys, k+"="+v)
+		}
+		sort.Strings(keys)
+		o["req.queries"] = fmt.Sprintf("%q", keys)
+	}
+	o["req.query(age)"] = fmt.Sprintf("%q/%d", c.Query("age"), fiber.Query[int](c, "age"))
+	o["req.cookie(name)"] = fmt.Sprintf("%q", c.Cookies("name"))
+	o["req.bodyraw"] = fmt.Sprintf("%q", c.BodyRaw())
+	o["req.formvalue(name)"] = fmt.Sprintf("%q", c.FormValue("name"))
+	{
+		mf, err := c.MultipartForm()
+		var vals []string
+		if mf != nil {
+			for k, v := range mf.Value {
+				vals = append(vals, fmt.Sprintf("%s=%q", k, v))
+			}
+			sort.Strings(vals)
+		}
+		o["req.multipart"] = fmt.Sprintf("%q err=%s", vals, errStr(err))
+	}
 	{
 		qh := c.GetReqHeaders()
 		keys := make([]string, 0, len(qh))
@@ -312,6 +365,12 @@ func buildApp(cfg int, st *runState) *fiber.App {
 		PassLocalsToViews:  true,
 		Immutable:          cfg == 2,
 	}
+	if cfg == 3 {
+		conf.TrustProxy = true
+		conf.TrustProxyConfig = fiber.TrustProxyConfig{Loopback: true}
+		conf.ProxyHeader = fiber.HeaderXForwardedFor
+		conf.EnableIPValidation = true
+	}
 	conf.ErrorHandler = func(c fiber.Ctx, err error) error {
 		st.observe(c, "errorhandler", err)
 		return fiber.DefaultErrorHandler(c, err)
@@ -335,6 +394,10 @@ func buildApp(cfg int, st *runState) *fiber.App {
 	app.Get("/p3/:a/:b/:c", probe("p3"))
 	app.Get("/w/*", probe("w"))
 	app.Get("/opt/:a?/:b?", probe("opt"))
+	// derived-value family (derived.go): every member is a history letter and a probe
+	app.Get("/dv/:a", probe("dv"))
+	app.Post("/dv/:a", probe("dv-post"))
+	app.Get("/dw/:b", probe("dw"))
 	app.Get("/render", func(c fiber.Ctx) error {
 		st.observe(c, "handler:render", nil)
 		return c.Render("page", fiber.Map{})
